@@ -1,8 +1,114 @@
-(* Property C04 -- placeholder while the pipeline is brought up; theorems follow. *)
+(* Property C04 -- timing: no early shots; discard_overflow bounds lateness to the 2 s window.
+   Statements only; proofs live in Proofs/WaiterProofs.v and Gen/Waiter_bridge.v.
+   The model (Model/Waiter.v) follows core/coreutil/waiter.go and the fire/discard branch of
+   core/engine/instance.go; [wfixed] is the tree after fix commit a013c75, [worig] before it.
+
+   Per call of Wait the world is an input: the instant [enter] the call is made at, the clock
+   reading [c_now] it may take, the instant [c_wake] a timer wakes it.  wf_call says: the clock
+   is monotone (the cached reading is not after [enter], a reading taken in the call is not
+   before it) and a timer never fires early.  return_lower is the earliest instant at which the
+   call can have returned. *)
 From Coq Require Import List ZArith Bool.
-From PV Require Import Model.Waiter.
+From PV Require Import Model.Waiter Proofs.WaiterProofs Gen.ConstGen Gen.Waiter_bridge.
 Import ListNotations.
 Local Open Scope Z_scope.
-Example C04_first_wait_sleeps :
-  w_slept (snd (wait wfixed wstate_init {| c_ctx_done := false; c_tok := Some 10; c_now := 0; c_cancel_in_sleep := false; c_wake := 10 |})) = true.
+
+Theorem C04_model_is_current_tree : wcurrent = wfixed.
 Proof. reflexivity. Qed.
+Print Assumptions C04_model_is_current_tree.
+
+(* No request is fired (and no discard reported) before its scheduled time: when Wait returns
+   true the token's time has been reached -- for every state, variant, clock and timer. *)
+Theorem C04_no_early : forall v st enter c st' o next,
+  wf_call st enter c -> wait v st c = (st', o) -> w_ok o = true -> c_tok c = Some next ->
+  next <= return_lower enter c o.
+Proof. exact wait_no_early. Qed.
+Print Assumptions C04_no_early.
+
+(* ... and the next call is again made in a well-formed world (the cached reading never runs
+   ahead of real time), so the per-call theorems chain along any history. *)
+Theorem C04_cached_reading_is_past : forall v st enter c st' o l',
+  wf_call st enter c -> wait v st c = (st', o) -> lastNow st' = Some l' -> l' <= return_lower enter c o.
+Proof. exact wait_last_le. Qed.
+Print Assumptions C04_cached_reading_is_past.
+
+(* A request that is less than two seconds late is never discarded: IsSlowDown implies that the
+   token is at least 2 s in the past when Wait returns (both variants). *)
+Theorem C04_no_false_discard : forall v st enter c st' o next,
+  wf_call st enter c -> wait v st c = (st', o) -> w_ok o = true -> c_tok c = Some next ->
+  is_slow_down st' = true -> max_overdue <= return_lower enter c o - next.
+Proof. exact wait_slow_is_late. Qed.
+Print Assumptions C04_no_false_discard.
+
+(* A request whose time is two seconds or more in the past when the instance picks it up
+   (enters Wait) is judged slow -- full statement, current tree. *)
+Theorem C04_late_discarded : forall st enter c st' o next,
+  wf_call st enter c -> wait wfixed st c = (st', o) -> w_ok o = true -> c_tok c = Some next ->
+  max_overdue <= enter - next -> is_slow_down st' = true.
+Proof. exact wait_late_is_slow. Qed.
+Print Assumptions C04_late_discarded.
+
+(* Not slow means: this call read the clock (or slept to the token's time) and that reading was
+   less than 2 s after the token. *)
+Theorem C04_not_slow_means_inside_window : forall st enter c st' o next,
+  wf_call st enter c -> wait wfixed st c = (st', o) -> w_ok o = true -> c_tok c = Some next ->
+  is_slow_down st' = false -> w_read o = true /\ c_now c - next < max_overdue.
+Proof. exact wait_not_slow_reading. Qed.
+Print Assumptions C04_not_slow_means_inside_window.
+
+(* The same statement was false of the tree before a013c75 (lateness judged against the stale
+   cached reading): tokens at +10/+20/+30 ms, 1.2 s and 1.5 s between the Waits: the third
+   token is picked up 2.68 s late and fired. *)
+Theorem C04_orig_late_discarded_refuted :
+  exists s, nth_error (run_inst worig true wstate_init 0 refute3_toks []) 2 = Some s /\
+    s_dec s = Fire /\ s_pickup s - s_tok s = 2680000000 /\ max_overdue <= s_pickup s - s_tok s.
+Proof. exact orig_late_token_fired. Qed.
+Print Assumptions C04_orig_late_discarded_refuted.
+
+(* discard_overflow disabled: nothing is ever discarded. *)
+Theorem C04_off_never_discards : forall slow, decide false slow = Fire.
+Proof. exact decide_off. Qed.
+Print Assumptions C04_off_never_discards.
+
+(* enabled: discarded exactly when IsSlowDown. *)
+Theorem C04_on_discards_iff_slow : forall slow, decide true slow = if slow then Discard else Fire.
+Proof. exact decide_on. Qed.
+Print Assumptions C04_on_discards_iff_slow.
+
+(* The window is 2 s, the discarded sample is (net 777, tag "discarded"): the model's constants
+   are the values compiled from the source. *)
+Theorem C04_window_value :
+  max_overdue = gen_max_overdue_ns /\ gen_max_overdue_ns = 2000000000 /\
+  discarded_code = gen_discarded_code /\ gen_discarded_code = 777%N /\
+  discarded_tag = gen_discarded_tag /\
+  forall st, is_slow_down st = true <-> 2000000000 <= overdue st.
+Proof.
+  split; [exact max_overdue_bridge|]. split; [reflexivity|]. split; [exact discarded_code_bridge|].
+  split; [reflexivity|]. split; [exact discarded_tag_bridge|exact is_slow_down_spec].
+Qed.
+Print Assumptions C04_window_value.
+
+(* Whole histories of an instance -- all token times, all response durations (slower than the
+   inter-request interval, slower than 2 s, ...), either variant, discard on or off -- on the
+   idealised timeline: every token gets exactly one fate, in order; no shot or discard report
+   is before its token; discarded => overflow enabled and >= 2 s late; on the current tree with
+   overflow enabled: >= 2 s late at pick-up => discarded, and every fired request starts less
+   than 2 s after its scheduled time (so the run ends within 2 s + one response time of the end
+   of the profile however slow the target is); overflow disabled => every token fired. *)
+Theorem C04_history : forall v d toks st t durs,
+  last_le st t -> Forall (fun p => 0 <= fst p) toks -> Forall (fun x => 0 <= x) durs ->
+  map s_tok (run_inst v d st t toks durs) = map snd toks /\
+  Forall (shot_ok v d) (run_inst v d st t toks durs).
+Proof. intros. split; [apply run_inst_tokens|apply run_inst_ok; assumption]. Qed.
+Print Assumptions C04_history.
+
+(* non-vacuity *)
+Example C04_example_wf :
+  wf_call {| lastNow := Some 1210000000; overdue := 1190000000 |} 2710000000
+          {| c_ctx_done := false; c_tok := Some 30000000; c_now := 2710000100; c_cancel_in_sleep := false; c_wake := 30000000 |}.
+Proof. constructor; cbn; intros; try (injection H as <-); apply Z.leb_le; reflexivity. Qed.
+
+Example C04_example_history :
+  map s_dec (run_inst wfixed true wstate_init 0 refute3_toks []) = [Fire; Fire; Discard] /\
+  map s_dec (run_inst wfixed false wstate_init 0 refute3_toks []) = [Fire; Fire; Fire].
+Proof. split; vm_compute; reflexivity. Qed.
